@@ -177,6 +177,14 @@ def run(ctx):
     ctx.check(ok, "key-injective", "map-key", ctx.loc(ins), "the priority map key contains the order key's queue-time component (key.2)",
               "the priority map key does not contain key.2")
     loader_counter_rules(ctx, m, loaders)
+    # "a simulation step stays correct even when it carries more instructions than the step size has time units": no instruction
+    # is dropped, truncated or deferred whatever the batch length (C08's batch rules; they contain no reference to step_size
+    # other than the final clock write)
+    from . import c08
+    from .c06 import _Prefixed
+    from .stepmodel import StepShape
+    for owner_, getter_, obj_ in (("Env", m.env_fn, "order_book"), ("MarketEnv", m.menv_fn, "market")):
+        c08.step_rules(_Prefixed(ctx, "overfull-"), m, owner_, StepShape(m, getter_("step"), obj_))
     ctx.note("Env/MarketEnv::step give instruction i the time start+i with no relation between batch length and step_size; "
              "when a batch is longer than step_size uniqueness rests entirely on the stamp rule above")
     ctx.assume("queue times stay below 2^64 - 1")
